@@ -651,3 +651,39 @@ def dirtext_decoders(api_path, core_path):
                 res["cells"] = reassigns(f, n.targets[0].elts[1].id)
                 break
     return res
+
+
+def memo_publication(source_path, roots):
+    """Inventory: item stores `obj[key] = value` (memo slots on objects other callers / threads can read) on the code reached from
+    `roots`.  A slot must be PUBLISHED ONCE with its final value: offenders are (a) a function that stores into the same slot
+    expression more than once, (b) a store whose value reads the slot it writes (`s[k] = convert(s[k], se)`: an intermediate value was
+    visible in between).  -> {"stores": ["function: slot"...], "offenders": [...]}"""
+    tree = ast.parse(open(source_path).read(), source_path)
+    funcs = {n.name: n for n in tree.body if isinstance(n, ast.FunctionDef)}
+    reached, todo = [], [r for r in roots if r in funcs]
+    while todo:
+        f = todo.pop()
+        if f in reached:
+            continue
+        reached.append(f)
+        for n in ast.walk(funcs[f]):
+            if isinstance(n, ast.Call) and isinstance(n.func, ast.Name) and n.func.id in funcs:
+                todo.append(n.func.id)
+    stores, off = [], []
+    for f in sorted(reached):
+        seen = {}
+        for n in ast.walk(funcs[f]):
+            if isinstance(n, (ast.Assign, ast.AugAssign)):
+                for t in (n.targets if isinstance(n, ast.Assign) else [n.target]):
+                    if isinstance(t, ast.Subscript) and isinstance(t.value, ast.Name):
+                        slot = ast.unparse(t)
+                        stores.append("%s: %s" % (f, slot))
+                        seen[slot] = seen.get(slot, 0) + 1
+                        reads_self = any(isinstance(x, ast.Subscript) and ast.unparse(x) == slot for x in ast.walk(n.value)) \
+                            or isinstance(n, ast.AugAssign)
+                        if reads_self:
+                            off.append("%s: %s is overwritten from its own earlier content (line %d)" % (f, slot, n.lineno))
+        for slot, k in seen.items():
+            if k > 1:
+                off.append("%s: %s is stored %d times" % (f, slot, k))
+    return {"stores": stores, "offenders": off}
